@@ -44,7 +44,8 @@ func (prop) Sweep(string) []kernel.Scenario { return nil }
 
 func (prop) Describe() kernel.Description {
 	return kernel.Description{
-		Rule: "one run = N=2..6 requests (mixed operations incl. two sharing a template prefix, an OR and an AND security requirement, an optional-auth operation, a body with two " +
+		Rule: "Dimensions added with the seed waves: a pool of multi-range Accept headers with a per-pass nonce parameter (header-keyed process-wide state is cold in every pass) and one header text shared by all requests; requests whose context is already cancelled; an operation without any parameter whose alternatives carry different scopes, seen by a scheme-aware authorizer; BindAndValidate with a route freshly obtained from LookupRoute; cold-start mode. " +
+			"one run = N=2..6 requests (mixed operations incl. two sharing a template prefix, an OR and an AND security requirement, an optional-auth operation, a body with two " +
 			"consumers, two producers; several requests on the same route on purpose; every request carries a unique token in every position: path values, query, credentials, body) " +
 			"served by ONE middleware.Context either through the full APIHandler or through a tape-generated accessor program (≤10 steps with repetition over RouteInfo / ContentType / " +
 			"ResponseFormat / Authorize / BindAndValidate / ResetAuth, threading the returned request like generated servers). The K2 scheduler runs exactly one request at a time, " +
